@@ -125,9 +125,13 @@ where
     // used in docs/internals/runtime.md
     // ANCHOR: process
     pub(crate) fn process(&self) -> Vec<A::Effect> {
+        #[cfg(crux_verif)]
+        crate::verif::point("co_process");
         self.executor.run_all();
 
         while let Some(capability_event) = self.capability_events.receive() {
+            #[cfg(crux_verif)]
+            crate::verif::point("co_update");
             let mut model = self.model.write().expect("Model RwLock was poisoned.");
             let command = self
                 .app
@@ -138,6 +142,9 @@ where
             self.command_spawner.spawn(command);
             self.executor.run_all();
         }
+
+        #[cfg(crux_verif)]
+        crate::verif::point("co_drain");
 
         self.requests.drain().collect()
     }
